@@ -10,7 +10,7 @@ ID = 'C18'
 LEVEL = 'exploration'
 RULE = ('generated layouts: struct parameter with 2..3 members (combined or separate read/write methods, read-only or '
         'not), float-enum label sets (plain labels with unit prefixes, explicit indices, explicit values), limit '
-        'configurations (min, max, limits pair) and 1..3 controllers on one output; random operation sequences up to '
+        'configurations (min, max, limits pair) and 1..3 controllers on one output, optionally beside a second independent output with its own controllers; random operation sequences up to '
         'depth 12 (reads, writes through the module and through the dispatcher, driver-side assignments, hardware '
         'drift, transient driver faults in a member read / write); invariants after EVERY operation, a divergence is attributed to the first operation after which it '
         'appears. distinct = (layout, operation sequence); non-trivial = sequence containing a write or an assignment')
@@ -19,7 +19,7 @@ ASSUMPTIONS = ['a read from the hardware may legitimately change values; consist
                'after an operation in which an injected driver fault fired, struct and members may disagree until the next '
                'successful read of the struct; from then on they must agree again after every operation']
 REQUIRED = ['struct_sequences', 'struct_invariant_checks', 'struct_resynchronised_after_fault', 'floatenum_sequences', 'floatenum_invariant_checks',
-            'limit_sequences', 'limit_requests_outside', 'limit_inverted_pairs', 'control_sequences', 'control_takeovers']
+            'limit_sequences', 'limit_requests_outside', 'limit_inverted_pairs', 'control_sequences', 'control_takeovers', 'control_frame_checks']
 
 N = {'quick': 150, 'thorough': 8000}
 
@@ -355,22 +355,44 @@ class World:
                 if self.output_module:
                     self.output_module.update_target(self.name, v)
                 return v
-        cfg = {'out': {'cls': Out, 'description': 'o'}}
-        for i in range(nctl):
-            cfg[f'c{i}'] = {'cls': Ctl, 'description': 'c', 'output_module': 'out'}
+        # one or two independent chains (output + its controllers); operations on one chain must not touch the other
+        nchains = rng.choice([1, 1, 2])
+        cfg = {}
+        layout = []
+        for ch in range(nchains):
+            oname = 'out' if ch == 0 else f'out{ch + 1}'
+            cfg[oname] = {'cls': Out, 'description': 'o'}
+            n = nctl if ch == 0 else rng.choice([1, 2])
+            names = [f'{"cde"[ch]}{i}' for i in range(n)]
+            for cn in names:
+                cfg[cn] = {'cls': Ctl, 'description': 'c', 'output_module': oname}
+            layout.append((oname, names))
         if rng.random() < 0.3:
             cfg['free'] = {'cls': Ctl, 'description': 'controller without output'}
+        if nchains > 1 and rng.random() < 0.5:
+            # declaration order is part of the configuration space
+            items = list(cfg.items())
+            rng.shuffle(items)
+            cfg = dict(items)
         node = self.node_for(cfg)
-        out = node.secnode.modules['out']
-        ctls = [node.secnode.modules[f'c{i}'] for i in range(nctl)]
+        mods = node.secnode.modules
+        chains = [(mods[o], [mods[c] for c in cs]) for o, cs in layout]
         conn = self.nodes.Conn()
         node.dispatcher.add_connection(conn)
-        case = {'sub': 'control', 'controllers': nctl, 'ops': []}
-        prev_active = None
+        case = {'sub': 'control', 'controllers': nctl, 'chains': [[o, cs] for o, cs in layout], 'ops': []}
+
+        def state(chain):
+            o, cs = chain
+            cb = o.controlled_by
+            return (getattr(cb, 'name', cb), tuple(c.name for c in cs if c.control_active))
+        prev_active = {}
         for step in range(rng.randint(3, 12)):
-            who = rng.choice(ctls + [out] + ([node.secnode.modules['free']] if 'free' in cfg else []))
+            ci = rng.randrange(nchains)
+            out, ctls = chains[ci]
+            who = rng.choice(ctls + [out] + ([mods['free']] if 'free' in cfg else []))
             via = rng.choice(['module', 'wire'])
             case['ops'].append([who.name, via])
+            before = [state(c) for c in chains]
             try:
                 if via == 'module':
                     who.write_target(float(step))
@@ -379,10 +401,20 @@ class World:
             except Exception as e:
                 r.violation('C18/control/raises', f'{who.name}.write_target raised {type(e).__name__}: {e}'[:200], case)
                 break
+            bad_frame = False
+            for cj, c in enumerate(chains):
+                if (cj != ci or who.name == 'free') and state(c) != before[cj]:
+                    r.count('control_frame_checks')
+                    r.violation('C18/control/other-chain-changed', f'{who.name} (chain {ci}) took control: chain {cj} went from {before[cj]} to {state(c)}', case)
+                    bad_frame = True
+                elif cj != ci:
+                    r.count('control_frame_checks')
+            if bad_frame:
+                break
             active = [c.name for c in ctls if c.control_active]
             cb = out.controlled_by
             name = getattr(cb, 'name', cb)
-            if prev_active and who.name != prev_active and who.name != 'free':
+            if prev_active.get(ci) and who.name != prev_active[ci] and who.name != 'free':
                 r.count('control_takeovers')
             if len(active) > 1:
                 r.violation('C18/control/more-than-one-active', f'{active} all marked as controlling after {who.name} took over', case)
@@ -398,7 +430,7 @@ class World:
                 if who is out and active:
                     r.violation('C18/control/previous-controller-not-switched-off', f'{active} still active after the output took control', case)
                     break
-                prev_active = who.name
+                prev_active[ci] = who.name
         r.count('control_sequences')
         r.case(('control', nctl, tuple(tuple(o) for o in case['ops'])), True)
 
